@@ -1,6 +1,7 @@
 """C14 - simple heuristics compute exactly what their textbook definitions prescribe."""
 import random
 from runtime import harness as H
+from props import _ded as D
 from runtime import t3_pack as T
 from props._domains import pack_inputs, cover_inputs
 
@@ -29,5 +30,7 @@ def t3(rep, tier, seed):
 
 def run(rep, tier, seed):
     rep.level = "exploration"
-    rep.assume("A1", "A4", "A6", "A8")
+    rep.assume("A1", "A2", "A4", "A5", "A6", "A8")
+    D.run_contracts(rep, "C14", D.PART_HEUR + D.FIT + D.COVER, tier, with_lemmas=True)
     t3(rep, tier, seed)
+    D.link_falsifier(rep)
